@@ -6,6 +6,7 @@ import (
 	"fmt"
 	"io"
 	"reflect"
+	"runtime"
 	"strconv"
 	"strings"
 
@@ -225,8 +226,20 @@ func opReadPDU(args []string) string {
 		return "bad-op"
 	}
 	r := newChunkReader(args[0], data)
+	var m0, m1 runtime.MemStats
+	measure := len(data) >= 16 && (len(data) >= 4096 || allocSample())
+	if measure {
+		runtime.ReadMemStats(&m0)
+	}
 	p, rerr := pdu.ReadPDU(r)
+	if measure {
+		runtime.ReadMemStats(&m1)
+	}
 	s := showRead(p, rerr, r.consumed)
+	// memory-bounded: what one call allocates is a small multiple of the largest frame, whatever came before it
+	if measure && m1.TotalAlloc-m0.TotalAlloc > 12*65536 {
+		s += fmt.Sprintf(" !! C04:allocated-%d-octets-in-one-call", m1.TotalAlloc-m0.TotalAlloc)
+	}
 	// C04 clauses evaluated on the implementation
 	if r.consumed > 65536 {
 		s += " !! C04:consumed>65536"
@@ -496,3 +509,38 @@ func copyHeader(dst, src interface{}) {
 
 // onlyPrepared: did Marshal's Prepare change the value (replace_sm data_coding marker)?
 func onlyPrepared(orig, after interface{}) bool { return toks(orig) != toks(after) }
+
+var allocCounter int
+
+// allocSample: measure every 8th small input (ReadMemStats stops the world)
+func allocSample() bool {
+	allocCounter++
+	return allocCounter%8 == 0
+}
+
+// failingWriter accepts k octets and then fails.
+type failingWriter struct{ left int }
+
+func (w *failingWriter) Write(p []byte) (int, error) {
+	if len(p) <= w.left {
+		w.left -= len(p)
+		return len(p), nil
+	}
+	n := w.left
+	w.left = 0
+	return n, fmt.Errorf("writer failed")
+}
+
+// opWFail: `wfail <k> <PDU…>` — Marshal into a destination that fails after k octets (implementation only; the result
+// of THIS call is not judged, what it may leave behind for the next call is)
+func opWFail(args []string) string {
+	if len(args) < 2 {
+		return "bad-op"
+	}
+	p, err := parsePDU(args[1:])
+	if err != nil {
+		return "bad-op"
+	}
+	_, _ = pdu.Marshal(&failingWriter{left: atoi(args[0])}, p)
+	return "wfail done"
+}
